@@ -707,6 +707,9 @@ namespace {
         unsigned long long seed = 0;
         std::vector<std::string> search;
         bool echo = true, analyseTwice = false, astdump = false;
+        // --cli-shots: configure each shot's evaluator exactly as the shot loop of cli.cpp does (QASM log only for the
+        // last shot, unmeasured-qubit warnings off for all but the last)
+        bool cliShots = false;
         int shot0 = 0;  // index of the first shot (so that a fresh process can reproduce shot k of a multi-shot run)
         for (size_t i = 0; i < args.size(); ++i) {
             const std::string& a = args[i];
@@ -733,6 +736,8 @@ namespace {
                 analyseTwice = true;
             else if (a == "--astdump")
                 astdump = true;
+            else if (a == "--cli-shots")
+                cliShots = true;
             else
                 file = a;
         }
@@ -770,8 +775,10 @@ namespace {
             unsigned long long s0 = RuntimeEvaluator::verifGcSwept;
             std::string status;
             try {
-                RuntimeEvaluator evaluator(true);
+                RuntimeEvaluator evaluator(cliShots ? s == shots - 1 : true);
                 evaluator.setEcho(echo);
+                if (cliShots && s < shots - 1)
+                    evaluator.setWarnOnExit(false);
                 try {
                     evaluator.execute(*program);
                     status = "\"ok\":true";
